@@ -159,9 +159,9 @@ def judge_blocks(ctx, binary, blocks, kinds, origin, tag):
 
 # ----------------------------------------------------------------------- random configurations
 R_HOSTS = [["a", "com"], ["api", "a-b", "co", "uk"], ["b2", "io"]]
-R_LITS = ["x", "v1", "a.b", "c++", "f(1)", "q?x", "x[1]", "a|b", "^a$", "a{2}", "u-s_r", "~me", "a+b", "(", "e.f.g"]
+R_LITS = ["x", "v1", "a.b", "c++", "f(1)", "q*x", "x[1]", "a|b", "^a$", "a{2}", "u-s_r", "~me", "a+b", "(", "e.f.g"]
 R_PARAMS = ["{id}", "{id_2}", "{i.d}", "{i-d}", "{user}"]
-R_NEAR = {"a.b": ["axb"], "c++": ["c", "cc", "c+"], "f(1)": ["f1"], "q?x": ["x", "qx"], "x[1]": ["x1"], "a|b": ["a", "b"],
+R_NEAR = {"a.b": ["axb"], "c++": ["c", "cc", "c+"], "f(1)": ["f1"], "q*x": ["x", "qx"], "x[1]": ["x1"], "a|b": ["a", "b"],
           "^a$": ["a"], "a{2}": ["aa"], "a+b": ["aab", "ab"], "e.f.g": ["exfxg"]}
 
 
@@ -233,6 +233,16 @@ def rand_group(rng, kind, nreq):
             h = rng.choice(R_HOSTS)
         elif x < 0.48:
             h = ["".join(h[:-1]) + "x" + h[-1]] if len(h) > 1 else h
+        if rng.random() < 0.15 and p:
+            # degenerate spellings: empty segment, "." / "..", encoded slash - in place of or before a segment
+            j = rng.randrange(len(p))
+            odd = rng.choice(["", "", "", ".", "..", "%2F", "x%2Fy"])
+            if rng.random() < 0.6:
+                p[j] = odd
+            else:
+                p.insert(j, odd)
+        while p and (p[-1] == "" or p[-1].endswith(".")):
+            p.pop()            # trailing "/" and "." are trimmed by the tree: those are the variants "ts" / "dot"
         m = rng.choice(it["m"]) if it["m"] and rng.random() < 0.7 else rng.choice(METHODS9)
         var = rng.choice([""] * 14 + ["ts", "ts", "uc", "uc", "dot"])
         key = (m, render(h, p, var))
@@ -600,11 +610,12 @@ def run(ctx):
                                "routing/export_verif_c14.go, runner/export_verif.go (call the unexported functions unchanged)"]
     ctx.assumptions += ["HAProxy's ACL plumbing (haproxy.cfg: capture.req.method,concat(':::',txn.url),map_reg) is read, not executed",
                         "request methods are the nine standard HTTP methods",
+                        "request URLs are host + path as HAProxy reports them: no '://', '?' or '#' in the URL text (the flow lookup cuts the URL there)",
                         "path parameters occur in path segments only (not in host labels); request URLs have no '{x}' or '*' segment",
                         "over-matching by the proxy (managing a request the engine has nothing for) is not a violation"]
 
     # (1) exhaustive I => P + case generation; (2) seeded sample of the larger item space; non-vacuity variants
-    nitems2 = 2 * 2 * sum(9 ** k for k in range(3)) * 5      # hosts x wildcard x bodies(<=2) x (1 policy + 3 flow method lists + 1 split)
+    nitems2 = 2 * 2 * sum(9 ** k for k in range(3)) * 5 + 2      # hosts x wildcard x bodies(<=2) x (1 policy + 3 flow method lists + 1 split)
     npick = 60 if not T else 0
     picks = sorted(ctx.rng.sample(range(1, nitems2 + 1), npick)) if npick else []
     with open(os.path.join(sd, "picks.ndjson"), "w") as f:
@@ -623,6 +634,7 @@ def run(ctx):
     jobs = [("mc", "MC_quick.cfg" if not T else "MC_pairs.cfg", "I=>P exhaustive + case generation"),
             ("nv", "MC_nv_quote.cfg", "only '.' quoted / narrow parameter names (O16)"),
             ("nv", "MC_nv_methods.cfg", "five default methods"),
+            ("nv", "MC_nv_empty.cfg", "parameter standing for an empty segment"),
             ("nv", "MC_nv_ts.cfg", "trailing-slash class present")]
     if picks:
         jobs.insert(1, ("mc", "GenC14.cfg", "I=>P on the seeded sample + case generation"))
@@ -634,7 +646,7 @@ def run(ctx):
     # flow items: filter-tree level for all; loaded-engine level for a seeded subset (an engine build costs ~10 ms)
     eng_frac = 0.25 if not T else 0.5
     # two flows on one URL: the per-URL grouping only exists in the engine's request builder -> always at engine level
-    groups = groups_of_case_files(raw, lambda g: ["flow"] + (["engine"] if g["split"] or ctx.rng.random() < eng_frac else []))
+    groups = groups_of_case_files(raw, lambda g: ["flow"] + (["engine"] if g["eng"] or ctx.rng.random() < eng_frac else []))
     ncases = sum(len(g["reqs"]) for g in groups)
     ctx.log("generated %d item groups -> %d executor groups, %d cases (%d at engine level)" % (
         len(raw), len(groups), ncases, sum(len(g["reqs"]) for g in groups if g["kind"] == "engine")))
@@ -656,6 +668,9 @@ def run(ctx):
             e_real, p_real = len(out["engine"]) > 0, len(out["proxy"]) > 0 or real["manage_all"]
             if (e_real, p_real) != (exp["engine"], exp["proxy"]):
                 drift += 1
+                if drift == 1:
+                    ctx.notes.append("first difference from ManagedI: level=%s items=%s request=%s %s real(engine,managed)=%s model=%s" % (
+                        g["kind"], json.dumps(g["items"]), rq["m"], render(rq["h"], rq["p"], rq["var"]), (e_real, p_real), (exp["engine"], exp["proxy"])))
                 pick.add(ri)
             elif exp["v"] != "ok":
                 pick.add(ri)
@@ -673,9 +688,10 @@ def run(ctx):
     ctx.log("executed %d cases; %d real verdict pairs differ from the model's; %d in the known trailing-slash class; %d blocks to validate"
             % (ncases, drift, nts, len(blocks)))
     need = [c + "@" + k for k in ("policy", "flow", "engine")
-            for c in ("engine-match", "proxy-over-match", "special-char-matched", "odd-param-name-matched", "wildcard-zero-tail", "trailing-slash-matched", "host-case-variant")
+            for c in ("engine-match", "proxy-over-match", "special-char-matched", "odd-param-name-matched", "wildcard-zero-tail", "trailing-slash-matched", "host-case-variant", "empty-segment")
             if not (c == "wildcard-zero-tail" and k != "policy")] + ["no-method-filter-HEAD@flow", "no-method-filter-HEAD@engine",
-                                                                    "two-flows-one-url@flow", "two-flows-one-url@engine"]
+                                                                    "two-flows-one-url@flow", "two-flows-one-url@engine",
+                                                                    "catch-all@engine", "catch-all-with-methods@engine"]
     missing = [c for c in need if not classes.get(c)]
     if missing:
         raise Broken("generated cases do not cover the input classes %s (vacuous replay)" % missing)
